@@ -3,7 +3,7 @@
    submitted -> done), and a job that is submitted or done has no blockers left in the table.  (The
    counters and the two version files are the subject of the component theorems in Props/C09.v.) *)
 From Coq Require Import List ZArith NArith Bool.
-From Jade Require Import Base System SystemMonitors SystemStatus.
+From Jade Require Import Base System SystemMonitors SystemStatus SystemBridge2.
 From Jade.Props Require Import SysExamples.
 Import ListNotations.
 Open Scope N_scope.
@@ -17,6 +17,23 @@ Theorem c09_no_blockers_after_submit : forall sc tr s, run sc tr = Some s ->
   forall j, In j (all_jobs sc) -> st s j <> NS -> bl s j = [].
 Proof. exact status_no_blockers_after_submit. Qed.
 Print Assumptions c09_no_blockers_after_submit.
+
+(* Layer A -> Layer B: the table that the model of Cluster._update_job_status (Status.v; tied to the real code by the
+   correspondence of this check) writes is a table the system acceptor accepts as the round's status update *)
+Theorem c09_update_table_passes_the_acceptor : forall (r : session) (jobs j2 j3 j4 : list S.job) (bl : list (N * list N)) (cl : list N) (sn : snapshot),
+  (forall n, In n (S.names jobs) ->
+     exists j, S.find_job n jobs = Some j /\ conv (S.j_state j) = r_st r n /\ S.j_blocked j = r_bl r n) ->
+  S.submit_loop (r_placed r) jobs = S.Ok j2 ->
+  (forall n bs, In (n, bs) bl -> bs = r_bl r n) ->
+  S.blocked_loop bl j2 = S.Ok j3 ->
+  (forall n, In n cl <-> In n (r_seen r)) ->
+  S.completed_loop cl (r_placed r ++ map fst bl) j3 = S.Ok j4 ->
+  (forall n, In n (r_seen r) -> r_st r n <> NS) ->
+  (forall n, In n (r_placed r) -> r_st r n = NS) ->
+  sn_jobs sn = snap_of (S.clear_loop j4) ->
+  forall n, In n (S.names jobs) -> update_ok_job r sn n = true.
+Proof. exact update_table_accepted. Qed.
+Print Assumptions c09_update_table_passes_the_acceptor.
 
 Example c09_system_nonvacuous : exists s, run ex_sc ex_tr = Some s /\ st s 0 = DONE /\ st s 1 = DONE /\ st s 2 = DONE.
 Proof. vm_compute. eexists. repeat split; reflexivity. Qed.
